@@ -435,6 +435,57 @@ def _dict_keys(e: ast.AST) -> Set[frozenset]:
     return {frozenset({"?"})}
 
 
+def _decided_none_test(ctx: Ctx, f: FunctionInfo, b: Node) -> Optional[bool]:
+    """The outcome of `<p> is [not] None` when p is the parameter of a helper analysed in place and THIS call site decides it:
+    every definition reaching the test is the binding of a constant (None: omitted / default; "*": given), or of a caller's
+    variable that is known not to be None on arrival (the call sits in the `else` of `if etag is None`)."""
+    a = b.ast
+    if not (isinstance(a, ast.Compare) and len(a.ops) == 1 and isinstance(a.ops[0], (ast.Is, ast.IsNot)) and isinstance(a.left, ast.Name)
+            and isinstance(a.comparators[0], ast.Constant) and a.comparators[0].value is None):
+        return None
+    g = ctx.cfg(f)
+    # the caller's own variable, substituted for the parameter: what is known about it on arrival (`else` of `if etag is None`)
+    for pol, e, _a in facts_at(ctx, f, b):
+        if isinstance(e, ast.Compare) and len(e.ops) == 1 and isinstance(e.left, ast.Name) and e.left.id == a.left.id \
+                and isinstance(e.comparators[0], ast.Constant) and e.comparators[0].value is None and isinstance(e.ops[0], (ast.Is, ast.IsNot)) \
+                and e is not a and pol in ("true", "false"):
+            known_none = (pol == "true") == isinstance(e.ops[0], ast.Is)
+            return known_none if isinstance(a.ops[0], ast.Is) else not known_none
+    ds = ctx.rd(f).reaching(b.id, a.left.id)
+    if not ds or g.entry in ds:
+        return None
+    is_none: Optional[bool] = None
+    for d in ds:
+        dn = g.nodes[d]
+        v = dn.ast.value if isinstance(dn.ast, ast.Assign) and "inline-bind" in dn.flags else None
+        if v is None:
+            return None
+        if isinstance(v, ast.Constant):
+            this = v.value is None
+        elif isinstance(v, (ast.JoinedStr, ast.Dict, ast.List, ast.Tuple)):
+            this = False
+        elif isinstance(v, ast.Name):
+            nn = any(pol in ("nonnull",) and isinstance(e, ast.Name) and e.id == v.id for pol, e, _a in facts_at(ctx, f, dn)) or any(
+                pol == "false" and isinstance(e, ast.Compare) and len(e.ops) == 1 and isinstance(e.ops[0], ast.Is) and isinstance(e.left, ast.Name)
+                and e.left.id == v.id and isinstance(e.comparators[0], ast.Constant) and e.comparators[0].value is None
+                for pol, e, _a in facts_at(ctx, f, dn)) or any(
+                pol == "true" and isinstance(e, ast.Compare) and len(e.ops) == 1 and isinstance(e.ops[0], ast.IsNot) and isinstance(e.left, ast.Name)
+                and e.left.id == v.id and isinstance(e.comparators[0], ast.Constant) and e.comparators[0].value is None
+                for pol, e, _a in facts_at(ctx, f, dn))
+            if not nn:
+                return None
+            this = False
+        else:
+            return None
+        if is_none is None:
+            is_none = this
+        elif is_none != this:
+            return None
+    if is_none is None:
+        return None
+    return is_none if isinstance(a.ops[0], ast.Is) else not is_none
+
+
 def _kwargs_states(ctx: Ctx, f: FunctionInfo, var: str, at: int) -> Set[frozenset]:
     """Forward may-analysis: the possible sets of precondition keys held by dict variable `var` on arrival at node `at`."""
     g = ctx.cfg(f)
@@ -461,9 +512,12 @@ def _kwargs_states(ctx: Ctx, f: FunctionInfo, var: str, at: int) -> Set[frozense
             out = {st | {"?"} for st in cur}
         if n == at:
             continue
+        decided = _decided_none_test(ctx, f, node) if node.kind == "branch" else None
         for d, lab in g.succ[n]:
             if lab not in NORMAL:
                 continue
+            if decided is not None and lab in ("true", "false") and lab != ("true" if decided else "false"):
+                continue  # `p is not None` on an optional parameter of a helper analysed in place: this call site gave / omitted it
             old = state.get(d, set())
             new = old | out
             if new != old or d not in state:
